@@ -765,6 +765,36 @@ def monitor_case(c, impl):
 
 
 OBLIGATIONS = [
+    {"id": "C15_F2a", "theorem": "Iora.C15.F2_any_segmentation_eq_whole", "kind": "proved",
+     "statement": "client: feeding any segmentation through the carried loop state (headerScanPos, ChunkState) = framing the whole stream (resumption: the carried state is a function of the accumulated bytes)"},
+    {"id": "C15_F2", "theorem": "Iora.C15.F2_segmentation_independent", "kind": "proved",
+     "statement": "client: two segmentations of one stream (then peer close) give the same response / framing error / closed-early outcome"},
+    {"id": "C15_F3a", "theorem": "Iora.C15.F3_buffer_bounded", "kind": "proved",
+     "statement": "client: buffer <= cap whenever the loop continues, <= cap + read size always"},
+    {"id": "C15_F3b", "theorem": "Iora.C15.F3_chunk_loop_progress", "kind": "proved",
+     "statement": "client: every continuing iteration of the chunk loop strictly advances pos (termination measure)"},
+    {"id": "C15_F3c", "theorem": "Iora.C15.F3_frame_never_grows", "kind": "proved",
+     "statement": "client: frameResponse never grows the buffer (interim erasure only shrinks)"},
+    {"id": "C15_S2a", "theorem": "Iora.C15.S2_extractor_stable", "kind": "proved",
+     "statement": "server: the request extractor is extension-stable for ARBITRARY buffers (CL, body-less and chunked requests, and every close decision)"},
+    {"id": "C15_S2", "theorem": "Iora.C15.S2_segmentation_independent", "kind": "proved",
+     "statement": "server: any two segmentations (<= MAX_BUFFER_SIZE) dispatch the same requests in the same order and leave the same session state"},
+    {"id": "C15_S2b", "theorem": "Iora.C15.S2_feed_eq_whole", "kind": "proved",
+     "statement": "server: feeding a segmentation = greedy drain of the whole stream"},
+    {"id": "C15_S2_generic", "theorem": "Iora.Framing.segmentation_independent", "kind": "proved",
+     "statement": "greedy framing with a stable parser yields the same frames for every segmentation (shared theorem)"},
+    {"id": "C15_S3a", "theorem": "Iora.C15.S3_buffer_bounded", "kind": "proved",
+     "statement": "server: session buffer <= MAX_BUFFER_SIZE; an exceeding read closes the connection unbuffered"},
+    {"id": "C15_S3b", "theorem": "Iora.C15.S3_limits", "kind": "proved",
+     "statement": "server: a dispatched request has header section <= MAX_HEADER_SIZE and declared length <= MAX_BODY_SIZE"},
+    {"id": "C15_S3c", "theorem": "Iora.C15.S3_header_too_long", "kind": "proved",
+     "statement": "server: a header section longer than MAX_HEADER_SIZE closes the connection"},
+    {"id": "C15_S6", "theorem": "Iora.C15.S6_lengths_valid", "kind": "proved",
+     "statement": "server: dispatched => every Content-Length line is 1*DIGIT < 2^64, all equal, and not combined with chunked TE (after F25)"},
+    {"id": "C15_S7", "theorem": "Iora.C15.S7_chunk_scan_progress", "kind": "proved",
+     "statement": "server: the chunk scan is total; every continuing iteration strictly advances pos within the buffer (after F26)"},
+    {"id": "C15_F26w", "theorem": "Iora.C15.F26_original_arithmetic_wraps", "kind": "proved",
+     "statement": "the unrepaired size_t arithmetic returns pos to the start of the line ffffffffffffffec"},
 ]
 
 
